@@ -79,7 +79,7 @@ def core(ctx):
                  {"k": "gate", "t": "or", "insts": [{"name": "g1", "out": "z", "ins": [["id", "a"], ["const", v, sp]]}]}]
         yield {"mod": _mod("top", ["a"], ["y", "z"], items), "ws": None, "reject": None}
     base = _mod("top", ["a", "b"], ["y"], [{"k": "gate", "t": "and", "insts": [{"name": "g", "out": "y", "ins": [["id", "a"], ["id", "b"]]}]}])
-    for rj in ("port_undeclared", "input_not_in_ports", "output_not_in_ports"):
+    for rj in ("port_undeclared", "input_not_in_ports", "output_not_in_ports", "port_internal"):
         yield {"mod": copy.deepcopy(base), "ws": None, "reject": rj}
 
 
@@ -341,7 +341,7 @@ def _module(draw, ctx):
 def _case(draw, ctx):
     mod = draw(_module(ctx))
     ws = draw(st.one_of(st.none(), st.lists(st.integers(0, 7), min_size=5, max_size=40)))
-    rj = draw(st.sampled_from([None] * 9 + ["port_undeclared", "input_not_in_ports", "output_not_in_ports"]))
+    rj = draw(st.sampled_from([None] * 9 + ["port_undeclared", "input_not_in_ports", "output_not_in_ports", "port_internal"]))
     tables = draw(st.lists(st.integers(0, (1 << 64) - 1), min_size=16, max_size=16))
     pre = draw(st.sampled_from(["", "", "\n// Generated by some tool 1.2\n// on: Jan 17 2020\n\n", "/* header\n   comment */\n", "\n\n  "]))
     post = draw(st.sampled_from(["", "", "\n// end of file\n", "\n\n"]))
@@ -381,6 +381,12 @@ def check(case, ctx):
     sem0 = vlog.Semantics(mod)
     if rj == "port_undeclared":
         mod["ports"] = list(mod["ports"]) + ["zz_extra_port"]
+    elif rj == "port_internal":
+        # an extra port that names an internal (driven, non-io) net: still not declared as input/output
+        internal = [n_ for n_ in sem0.drivers if n_ not in sem0.inputs and n_ not in sem0.outputs]
+        if not internal:
+            return {"nontrivial": False, "labels": ["skipped_no_internal_net"]}
+        mod["ports"] = list(mod["ports"]) + [sorted(internal)[(case.get("tables") or [0])[0] % len(internal)]]
     elif rj == "input_not_in_ports":
         victim = sem0.inputs[0]
         mod["ports"] = [p for p in mod["ports"] if p != victim]
